@@ -18,7 +18,7 @@ import numpy as np
 
 FAMILIES = ["grid", "corenet", "interacting", "spatial", "resistive", "rp",
             "rp_lines", "crp_jrp", "visibility", "surrogates", "funcnet",
-            "climate", "rp_twins", "isrn"]
+            "climate", "rp_twins", "isrn", "big_layouts"]
 
 META = dict(
     flavour="asanrec",
@@ -33,7 +33,10 @@ META = dict(
     technique="compiler sanitizers (ASan+UBSan) on an instrumented rebuild, "
               "hostile-shape workload through the public API",
     rule=("cases: every public entry point that reaches an _ext kernel "
-          "(14 families, one process each) x shapes with every dimension in "
+          "(15 families, one process each; the 15th repeats the pointer-"
+          "passing entry points with inputs of KiB..MiB size in Fortran, "
+          "transposed, strided and negative-stride layouts, where freed "
+          "temporaries are no longer hidden by NumPy's small-block cache) x shapes with every dimension in "
           "{0,1,2,3,small random}, N != T and N > T, dtypes {bool,int8,int32,"
           "int64,float32,float64}, C/Fortran/strided layouts, NaN/inf content, "
           "degenerate parameters (tau >= length, k >= N, empty node lists); "
@@ -903,7 +906,173 @@ def fam_climate(ctx):
             yield f"RainfallClimateNetwork.__init__|mask,T={T},N={N},et={et}", t
 
 
-FAM_FUNCS = dict(grid=fam_grid, corenet=fam_corenet,
+def fam_big_layouts(ctx):
+    """Inputs of a few KiB to MiB in non-contiguous layouts through the entry
+    points that hand raw pointers to C code.  NumPy serves blocks below
+    1 KiB from its own free list, where a freed temporary stays readable and
+    ASan sees no use-after-free; at these sizes the allocator is ASan's."""
+    from pyunicorn.timeseries import (Surrogates as S, RecurrencePlot as RP,
+                                      CrossRecurrencePlot as CRP,
+                                      JointRecurrencePlot as JRP,
+                                      VisibilityGraph as VG)
+    from pyunicorn.funcnet import CouplingAnalysis as CA
+    from pyunicorn.core import Grid, GeoGrid, Network
+    from pyunicorn.eventseries import EventSeries as ES
+    from pyunicorn import climate as C
+    from pvm.gen.objects import climate_data
+    r = ctx.rng("big")
+
+    def layouts(a):
+        """-> {name: view/array with the values of a}"""
+        out = {"C": a.copy()}
+        if a.ndim == 2:
+            out["F"] = np.asfortranarray(a)
+            out["T-view"] = np.ascontiguousarray(a.T).T
+            big = np.zeros((2 * a.shape[0], 2 * a.shape[1]), dtype=a.dtype)
+            big[::2, ::2] = a
+            out["strided"] = big[::2, ::2]
+            out["reversed"] = a[:, ::-1][:, ::-1]
+            out["neg-stride"] = np.ascontiguousarray(a[:, ::-1])[:, ::-1]
+        else:
+            big = np.zeros(2 * a.shape[0], dtype=a.dtype)
+            big[::2] = a
+            out["strided"] = big[::2]
+            out["neg-stride"] = np.ascontiguousarray(a[::-1])[::-1]
+        return out
+
+    for N, T in ((4, 300), (2, 3000), (3, 20000)):
+        base = r.normal(size=(N, T))
+        other = r.normal(size=(N, T))
+        for la, a in layouts(base).items():
+            for lb, b in layouts(other).items():
+                if la == "C" and lb == "C" and T > 300:
+                    continue
+                tag = f"N={N},T={T},{la},{lb}"
+                yield (f"Surrogates.test_pearson_correlation|big,{tag}",
+                       lambda a=a, b=b: S.test_pearson_correlation(a, b)
+                       .shape)
+                if T <= 3000:
+                    yield (f"Surrogates.test_mutual_information|big,{tag}",
+                           lambda a=a, b=b: S.test_mutual_information(
+                               a, b, n_bins=16).shape)
+            if T <= 3000:
+                for m in ("correlated_noise_surrogates", "AAFT_surrogates",
+                          "white_noise_surrogates"):
+                    yield (f"Surrogates.{m}|big,N={N},T={T},{la}",
+                           lambda a=a, m=m: getattr(S(a, silence_level=3),
+                                                    m)().shape)
+                yield (f"Surrogates.refined_AAFT_surrogates|big,N={N},T={T},"
+                       f"{la}", lambda a=a: S(a, silence_level=3)
+                       .refined_AAFT_surrogates(2).shape)
+            if T == 300:
+                yield (f"Surrogates.twin_surrogates|big,N={N},T={T},{la}",
+                       lambda a=a: S(a, silence_level=3)
+                       .twin_surrogates(2, 1, 0.5).shape)
+    # [time, index] data sets
+    for T, N in ((400, 4), (3000, 3)):
+        base = r.normal(size=(T, N))
+        for la, a in layouts(base).items():
+            tag = f"T={T},N={N},{la}"
+            for mode in ("all", "max"):
+                yield (f"CouplingAnalysis.cross_correlation|big,{mode},{tag}",
+                       lambda a=a, mode=mode: np.shape(CA(
+                           a, silence_level=3).cross_correlation(
+                               tau_max=3, lag_mode=mode)))
+            yield (f"CouplingAnalysis.mutual_information|big,gauss,{tag}",
+                   lambda a=a: np.shape(CA(a, silence_level=3)
+                                        .mutual_information(
+                                            tau_max=2, estimator="gauss",
+                                            lag_mode="all")))
+            if T == 400:
+                yield (f"CouplingAnalysis.mutual_information|big,knn,{tag}",
+                       lambda a=a: np.shape(CA(a, silence_level=3)
+                                            .mutual_information(
+                                                tau_max=1, estimator="knn",
+                                                knn=5, lag_mode="all")))
+                for cname in ("TsonisClimateNetwork",
+                              "SpearmanClimateNetwork",
+                              "MutualInfoClimateNetwork",
+                              "HavlinClimateNetwork",
+                              "HilbertClimateNetwork",
+                              "RainfallClimateNetwork"):
+                    def t(a=a, cname=cname, N=N):
+                        cd = climate_data(a, np.linspace(-60, 60, N),
+                                          np.linspace(0, 300, N), cycle=12)
+                        kw = {"winter_only": False} if cname in (
+                            "TsonisClimateNetwork", "SpearmanClimateNetwork",
+                            "MutualInfoClimateNetwork") else {}
+                        return getattr(C, cname)(cd, threshold=0.3,
+                                                 silence_level=3,
+                                                 **kw).n_links
+                    yield f"{cname}.__init__|big,{tag}", t
+            M = (np.abs(a) > 1.2).astype(int)
+            Ml = layouts(M)[la]
+            yield (f"EventSeries.event_series_analysis|big,ES,{tag}",
+                   lambda Ml=Ml: np.shape(ES(Ml, taumax=3)
+                                          .event_series_analysis(method="ES")))
+            yield (f"EventSeries.event_series_analysis|big,ECA,{tag}",
+                   lambda Ml=Ml: np.shape(ES(Ml, taumax=3)
+                                          .event_series_analysis(
+                                              method="ECA")))
+    # recurrence plots and visibility graphs of long series
+    for n, d in ((300, 1), (300, 3), (1200, 2)):
+        x = r.normal(size=(n, d))
+        y = r.normal(size=(n - 37, d))
+        for la, a in layouts(x).items():
+            b = layouts(y)[la]
+            for metric in ("supremum", "euclidean", "manhattan"):
+                tag = f"n={n},d={d},{metric},{la}"
+                yield (f"RecurrencePlot.__init__|big,{tag}",
+                       lambda a=a, metric=metric: RP(
+                           a, metric=metric, recurrence_rate=0.1,
+                           silence_level=3).recurrence_rate())
+                if n == 300:
+                    yield (f"CrossRecurrencePlot.__init__|big,{tag}",
+                           lambda a=a, b=b, metric=metric: CRP(
+                               a, b, metric=metric, threshold=1.0,
+                               silence_level=3).cross_recurrence_rate())
+                    yield (f"JointRecurrencePlot.__init__|big,{tag}",
+                           lambda a=a, metric=metric: JRP(
+                               a, a[::-1], metric=metric, threshold=(1., 1.),
+                               silence_level=3).recurrence_rate())
+            if d == 1:
+                yield (f"RecurrencePlot.rqa|big,n={n},{la}",
+                       lambda a=a: RP(a[:, 0], dim=3, tau=2, threshold=1.0,
+                                      silence_level=3).rqa_summary())
+                for hz in (False, True):
+                    yield (f"VisibilityGraph.__init__|big,n={n},hz={hz},{la}",
+                           lambda a=a, hz=hz: VG(a[:, 0], horizontal=hz,
+                                                 silence_level=3).n_links)
+    # coordinates
+    for N, d in ((300, 3), (1000, 2)):
+        X = r.normal(size=(d, N))
+        for la, a in layouts(X).items():
+            yield (f"Grid.euclidean_distance|big,N={N},d={d},{la}",
+                   lambda a=a, N=N: Grid(np.arange(3.), a, silence_level=3)
+                   .euclidean_distance().shape)
+        lat = r.uniform(-90, 90, N)
+        lon = r.uniform(-180, 180, N)
+        for la in ("strided", "neg-stride"):
+            yield (f"GeoGrid.angular_distance|big,N={N},{la}",
+                   lambda lat=lat, lon=lon, la=la: GeoGrid(
+                       np.arange(3.), layouts(lat)[la], layouts(lon)[la],
+                       silence_level=3).angular_distance().shape)
+    # adjacency matrices
+    for N in (80, 300):
+        A = np.triu(r.random((N, N)) < (0.1 if N > 100 else 0.3), 1)
+        A = (A | A.T).astype(np.int8)
+        w = r.uniform(0.5, 2.0, N)
+        for la, a in layouts(A).items():
+            for m in ("nsi_betweenness", "local_clustering",
+                      "nsi_local_clustering", "nsi_average_path_length",
+                      "nsi_max_neighbors_degree", "matching_index"):
+                yield (f"Network.{m}|big,N={N},{la}",
+                       lambda a=a, m=m, w=w: np.shape(getattr(Network(
+                           adjacency=a, node_weights=layouts(w)["strided"],
+                           silence_level=3), m)()))
+
+
+FAM_FUNCS = dict(big_layouts=fam_big_layouts, grid=fam_grid, corenet=fam_corenet,
                  interacting=fam_interacting, spatial=fam_spatial,
                  resistive=fam_resistive, rp=fam_rp, rp_lines=fam_rp_lines,
                  crp_jrp=fam_crp_jrp, visibility=fam_visibility,
